@@ -57,6 +57,7 @@ def is_clone(s) -> bool:
 
 
 def run(ctx: Ctx):
+    ruin_repair_mask(ctx)
     for cname, path in ENVS.items():
         env = EnvA(ctx.repo, path, cname)
         rs, st = env.slot("_reset"), env.slot("_step")
@@ -259,6 +260,40 @@ def surgery(ctx: Ctx):
             ctx.ob("C09.g", f"{cname}._local_operator:walk-bound@{node.lineno - fi.node.lineno}", ok, fi.loc, why, construct=f"{fi.qualname}:walk-bound:{n_walks}")
         if cname == "TSPkoptEnv" and n_walks < 1:
             raise AnalysisError(f"{cname}._local_operator: the absorbing 2-opt reversal walk was not recognised")
+
+
+def ruin_repair_mask(ctx: Ctx):
+    """C09.h PDP ruin-and-repair mask: reinsertion positions are ordered by visit time with the depot FIRST.  The tour's visit
+    times run 1..n with the depot stamped n (it closes the cycle), so the order test must compare `visited_time % n`: without
+    the modulus the depot is ordered last and `delivery right after the depot, pickup later` is offered."""
+    path = "rl4co/envs/routing/pdp/env.py"
+    cls = ctx.repo.get_class(path, "PDPRuinRepairEnv")
+    fi = cls.methods.get("get_mask")
+    if fi is None:
+        raise AnalysisError("PDPRuinRepairEnv.get_mask not found")
+    ctx.fn(fi)
+    it = vg.Interp(ctx.repo, cls)
+    fr = it.run_function(fi)
+    cmps = [nf._cmp_raw(n) for n in vg.walk(fr.ret) if nf._cmp_raw(n) is not None] if isinstance(fr.ret, vg.S) else []
+    cmps = [c for c in cmps if "visited_time" in vg.cells_of(c[0]) and "visited_time" in vg.cells_of(c[2])]
+
+    def n_nodes(x):
+        d = nf.dim_of(x)
+        if d is not None:
+            return nf.strip(d[0]).op == "cell0" and nf.strip(d[0]).args[1] == "visited_time" and d[1] in (1, -1)
+        # visited_time.size()[1] (tuple unpacking of .size())
+        return x.op == "sub" and vg.is_const(x.args[1], 1) and x.args[0].op == "meth" and x.args[0].args[1] == "size" and len(x.args[0].args) == 2 \
+            and nf.strip(x.args[0].args[0]).op == "cell0" and nf.strip(x.args[0].args[0]).args[1] == "visited_time" or \
+            (x.op == "sub" and vg.is_const(x.args[1], 1) and x.args[0].op == "attr" and x.args[0].args[1] == "shape" and nf.strip(x.args[0].args[0]).op == "cell0")
+
+    def wrapped(x):
+        x = nf.strip(x)
+        return x.op == "%" and nf.strip(x.args[0]).op == "cell0" and nf.strip(x.args[0]).args[1] == "visited_time" and n_nodes(x.args[1])
+    ok = len(cmps) == 1 and wrapped(cmps[0][0]) and wrapped(cmps[0][2]) and cmps[0][1] in (">", "<")
+    ctx.ob("C09.h", "PDPRuinRepairEnv.get_mask:depot-ordered-first", ok, fi.loc,
+           "positions are ordered by visited_time % n on both sides (the depot's stamp n wraps to 0)" if ok else
+           f"the order test compares {[vg.show(c[0], 3)[:60] + ' ' + c[1] + ' ' + vg.show(c[2], 3)[:60] for c in cmps][:2]}: the depot (visit time n) is not wrapped to position 0",
+           construct="PDPRuinRepairEnv.get_mask:visit-order-modulus")
 
 
 def run_thorough(ctx: Ctx):
